@@ -138,7 +138,14 @@ func (w *world) RequestTo(to string, m interface{}) {
 	case no > w.target:
 		w.fail("B-beyond-target", fmt.Sprintf("block %d handed over, target is %d", no, w.target))
 	case string(b.GetHeader().GetPrevBlockHash()) != string(prev.GetHash()):
-		w.fail("B-not-child", fmt.Sprintf("block %d handed to the chain service is not a child of the previously handed block %d", no, want-1))
+		sig := "B-not-child"
+		if (int(no)-ancNo-1)%w.c.Fetch == 0 { // first block of a fetch task (hash set sizes are multiples of the fetch size)
+			sig = "B-not-child-first-genuine" // a genuine block of another branch (the hash list switched branches)
+			if w.byHash[string(b.GetHash())] != b {
+				sig = "B-not-child-first-forged" // carries the requested identifier, names another parent
+			}
+		}
+		w.fail(sig, fmt.Sprintf("block %d handed to the chain service is not a child of the previously handed block %d", no, want-1))
 	}
 	w.adds = append(w.adds, b)
 }
@@ -646,17 +653,11 @@ func sigB(w *world, hist []string) string {
 			cls = "/" + ev[i+1:]
 		}
 	}
-	if w.sig == "B-not-child" {
-		for _, ev := range hist {
-			if ev == "Hsw" {
-				return "F15/hashset-switch"
-			}
-		}
-		for _, ev := range hist {
-			if strings.HasSuffix(ev, ":ffirst") {
-				return "F15/ffirst"
-			}
-		}
+	switch w.sig {
+	case "B-not-child-first-genuine":
+		return "F15/hashset-switch"
+	case "B-not-child-first-forged":
+		return "F15/ffirst"
 	}
 	return w.sig + cls
 }
